@@ -72,6 +72,21 @@ def run(tier, seed, workers=None):
                      'keys and job statuses'])
     cr.coverage['evaluations'] = cr.coverage['transitions'] + 3 * \
         cr.coverage['monitor_stats'].get('c10_repeats', 0)
+    # For this property a divergence between the long-lived explorer and a
+    # fresh process *is* the violation ("the outcome does not depend on which
+    # jobs the same instance processed before"); the unchanged tree never
+    # diverges.
+    keep = []
+    for e in cr.harness_errors:
+        if e.startswith('NONDETERMINISM'):
+            cr.add_violation(
+                'a fresh process and the long-lived instance disagree: ' + e,
+                'depends-on-earlier-jobs',
+                {'engine': 'sys', 'driver': specs(tier)[0], 'history': [],
+                 'note': e})
+        else:
+            keep.append(e)
+    cr.harness_errors = keep
     return cr
 
 
